@@ -172,6 +172,8 @@ var c20Menus = map[string][]c20Outcome{
 	"shellcheck": {
 		{"1issue", false, 1, vexec.Outcome{Stdout: []byte(`[{"line":2,"column":1,"level":"warning","code":2086,"message":"Double quote."}]`), ExitCode: 1}},
 		{"clean", false, 0, vexec.Outcome{Stdout: []byte(`[]`)}},
+		// an issue located on the first line of the tool's input (the set-up line actionlint prepends) or before it
+		{"issues-on-lines-1-and-0", false, 2, vexec.Outcome{Stdout: []byte(`[{"line":1,"column":1,"level":"warning","code":2148,"message":"Tips."},{"line":0,"column":0,"level":"error","code":1000,"message":"Whole file."}]`), ExitCode: 1}},
 		{"2issues", false, 2, vexec.Outcome{Stdout: []byte(`[{"line":2,"column":1,"level":"warning","code":2086,"message":"Double quote."},{"line":2,"column":3,"level":"info","code":2016,"message":"Other."}]`), ExitCode: 1}},
 		{"exit-nonzero-empty-stdout", true, 0, vexec.Outcome{ExitCode: 2, Stderr: []byte("boom")}},
 		{"killed-by-signal", true, 0, vexec.Outcome{ExitCode: -1}},
@@ -191,6 +193,8 @@ var c20Menus = map[string][]c20Outcome{
 		{"exit-nonzero-empty-stdout", true, 0, vexec.Outcome{ExitCode: 1}},
 		{"killed-by-signal", true, 0, vexec.Outcome{ExitCode: -1}},
 		{"killed-after-partial-output", true, 0, vexec.Outcome{ExitCode: -1, Stdout: []byte("<stdin>:1:1: 'os' imported but unused\n")}},
+		// one issue (a syntax error) whose echoed source line holds the marker of an issue line
+		{"1issue-echoing-the-marker", false, 1, vexec.Outcome{Stdout: []byte("<stdin>:1:30: unexpected EOF while parsing\nprint(\"see <stdin>:1:1: foo\", (\n                             ^\n"), ExitCode: 1}},
 		// the stream handed to the rule is stdout+stderr combined: a crash writes only to stderr
 		{"crash-traceback-on-stderr", true, 0, vexec.Outcome{ExitCode: 1, Stdout: []byte("Traceback (most recent call last):\n  File \"<frozen runpy>\", line 198, in _run_module_as_main\n/usr/bin/python3: No module named pyflakes\n")}},
 		{"start-failure", true, 0, vexec.Outcome{StartErr: errors.New("fork/exec /fake/pyflakes: exec format error")}},
